@@ -7,7 +7,7 @@
    alphabet: inv2_step, inv2_step_covers_all). *)
 From stdpp Require Import gmap.
 From Acme.C04 Require Import Spec Proofs_New Proofs_Step Proofs_Cor Proofs_Witness Proofs_Pre.
-From Acme.C04 Require Import Spec2 Proofs_RegInv Proofs_RegCor Proofs_RegWitness.
+From Acme.C04 Require Import Spec2 Proofs_RegInv Proofs_RegCor Proofs_RegWitness SpecSig Proofs_RegPre.
 
 Theorem inv_init : Inv init.
 Proof. exact Proofs_New.inv_init. Qed.
@@ -178,3 +178,15 @@ Theorem signal_rename_releases_name : forall s m x old new,
   lookup_signal_by_name (fst (step2 s (SigUpdateName x new))) m new = Some x.
 Proof. exact Proofs_RegCor.signal_rename_releases_name. Qed.
 Print Assumptions signal_rename_releases_name.
+
+(* the general form for the whole alphabet ([pre2] / [viol2]: Acme.C04.SpecSig, on the contents): any
+   violated documented precondition is refused, and after any call a call is accepted as soon as its
+   precondition holds on the current contents, whatever the history was *)
+Theorem used_key_refused2 : forall s o cw, Inv2 s -> viol2 s o cw -> is_err (snd (step2 s o)) = true.
+Proof. exact Proofs_RegPre.used_key_refused2. Qed.
+Print Assumptions used_key_refused2.
+
+Theorem released_key_reusable2 :
+  forall s o1 o2, Inv2 s -> op_ok2 s o1 -> pre2 (fst (step2 s o1)) o2 -> snd (step2 (fst (step2 s o1)) o2) = Ok.
+Proof. exact Proofs_RegPre.released_key_reusable2. Qed.
+Print Assumptions released_key_reusable2.
